@@ -45,6 +45,7 @@ type Frame struct {
 	retVals  [][]Val
 	retSts   []*State
 	recovered map[*ssa.BasicBlock]bool
+	siteOrd   map[string]map[ssa.Instruction]int
 }
 
 type deferred struct {
